@@ -56,6 +56,20 @@ ASSUMPTIONS = [
     'the assignment; convention is re-assigned only 0 -> 3 (the only pair with compatible column and layer names)',
     'announced order of the underground blocks is also compared with the documented orderings (layer then column; '
     'dmplex: four-sided columns first, then three-sided, each by layer then column)',
+    'histories (seventh round): the edit alphabet also holds edits of the layer structure and of the names - layers '
+    'replaced by add_layers() with the top half a first layer higher (old top inside the new first layer / on its '
+    'bottom), lower, or unchanged, followed by set_column_num_layers for every column and the two set-up calls; '
+    'copy_layers_from() a geometry with a higher / lower top; rename_layer() swapping two layers, cycling all '
+    'underground layers, giving the first or the atmosphere layer an unused name; rename_column() swapping two, cycling '
+    'all, one unused name; refine_layers() of all / the first layer / the last by 3; every surface re-assigned (mixed, '
+    'all lowered) and the indexes rebuilt; fit_surface() to one datum per column and the indexes rebuilt; translate() '
+    'in z only.  Every history is run on an object converted once before the edit and on one never converted; it starts '
+    'from surfaces assigned through the surface setter (all = top, mixed) and - layer / name / surface edits only - from '
+    'surfaces exactly as the constructor left them (never assigned; one column lowered).  After the edit the '
+    'geometry is also written and read back and the copy converted: that grid is judged against the raw data of the '
+    'copy, and where the copy holds the same raw data as the edited object (names, coordinates, layers, surfaces, '
+    'options) the two grids must agree within the tolerance; a copy that cannot be written / read or holds other data '
+    '(numbers rounded by the file format; surfaces the writer leaves out) is judged on its own only',
     'histories: convert, apply one edit (split_column, column centre re-specified with centre_specified set, one node '
     'moved followed by the get_area / centroid refresh optimize() performs, rotate, translate, a surface set and the '
     'indexes rebuilt, snap_columns_to_layers, refine of one column), convert again; the second grid is judged against the '
@@ -490,6 +504,10 @@ class Ctx(object):
     def set_surfaces(self, sidx):
         geo = self.geo
         for i, col in enumerate(geo.columnlist):
+            if sidx is not None and sidx[i] is None:
+                # (histories on a fresh object only) the column's surface is left exactly as the constructor / reader
+                # left it - never assigned through the surface setter
+                continue
             col.surface = self.file_surfaces[i] if sidx is None else self.alphabet[sidx[i]]
             geo.set_column_num_layers(col)
         geo.setup_block_name_index()
@@ -757,7 +775,113 @@ def edits_of(ctx):
     out += [('surface', i, v) for i in range(ctx.ncol) for v in (2, 3)]
     out += [('snap',)]
     out += [('refine', i) for i in range(ctx.ncol)]
+    return out + structure_edits(ctx)
+
+
+RELAYER = ('up', 'upthin', 'down', 'same')
+LAYNAMES = ('swap', 'cycle', 'plain', 'atm')
+COLNAMES = ('swap', 'cycle', 'plain')
+REFLAYERS = ('all', 'first', 'last3')
+
+
+def structure_edits(ctx):
+    """Edits of the layer structure, of the names and of all surfaces at once (seventh round)."""
+    out = [('relayer', v) for v in RELAYER]
+    out += [('copylayers', v) for v in ('up', 'down')]
+    out += [('laynames', v) for v in LAYNAMES]
+    out += [('colnames', v) for v in COLNAMES if ctx.ncol >= 2 or v == 'plain']
+    out += [('reflayers', v) for v in REFLAYERS]
+    out += [('surfaces', 'mixed'), ('surfaces', 'lower'), ('fit',), ('translatez',)]
     return out
+
+
+def new_layering(geo, how):
+    """(thicknesses, top elevation) of a replacement layer structure placed relative to the present one: 'up' - top
+    half a first layer higher, the old top inside the new first layer; 'upthin' - the same top, the old top on the
+    new first boundary; 'down' - top half a first layer lower; 'same' - same top, first layer halved."""
+    top = float(geo.layerlist[0].bottom)
+    th = [float(l.top) - float(l.bottom) for l in geo.layerlist[1:]]
+    d = 0.5 * th[0]
+    if how == 'up':
+        return [d + 0.5 * th[0], 0.5 * th[0]] + th[1:], top + d
+    if how == 'upthin':
+        return [d] + th, top + d
+    if how == 'down':
+        return [0.5 * th[0]] + th[1:], top - d
+    if how == 'same':
+        return [0.5 * th[0], 0.5 * th[0]] + th[1:], top
+    raise core.HarnessError('layering %r' % how)
+
+
+def reindex(geo):
+    for col in geo.columnlist:
+        geo.set_column_num_layers(col)
+    geo.setup_block_name_index()
+    geo.setup_block_connection_name_index()
+
+
+def unused_name(names, digits):
+    w = len(names[0])
+    for cand in (('987', '986', '985') if digits else ('zyx', 'zyw', 'zyv')):
+        n = cand[:w].rjust(w)
+        if n not in names:
+            return n
+    raise core.HarnessError('no unused name')
+
+
+def apply_structure_edit(geo, edit, alphabet):
+    import numpy as np
+    import mulgrids
+    k, v = edit[0], (edit[1] if len(edit) > 1 else None)
+    if k == 'relayer':
+        # the layers replaced through add_layers (which clears them first), then what follows any layer edit
+        th, top = new_layering(geo, v)
+        geo.add_layers(th, top_elevation=top, surface_layer_name=geo.layerlist[0].name)
+        reindex(geo)
+    elif k == 'copylayers':
+        th, top = new_layering(geo, v)
+        other = mulgrids.mulgrid(convention=geo.convention)
+        other.add_layers(th, top_elevation=top, surface_layer_name=geo.layerlist[0].name)
+        geo.copy_layers_from(other)
+    elif k == 'laynames':
+        names = [l.name for l in geo.layerlist]
+        if v == 'swap':
+            geo.rename_layer([names[1], names[2]], [names[2], names[1]])
+        elif v == 'cycle':
+            geo.rename_layer(names[1:], names[2:] + names[1:2])
+        elif v == 'plain':
+            geo.rename_layer(names[1], unused_name(names, False))
+        elif v == 'atm':
+            geo.rename_layer(names[0], unused_name(names, False))
+    elif k == 'colnames':
+        names = [c.name for c in geo.columnlist]
+        if v == 'swap':
+            geo.rename_column([names[0], names[1]], [names[1], names[0]])
+        elif v == 'cycle':
+            geo.rename_column(names, names[1:] + names[:1])
+        elif v == 'plain':
+            geo.rename_column(names[0], unused_name(names, names[0].strip().isdigit()))
+    elif k == 'reflayers':
+        if v == 'all':
+            geo.refine_layers()
+        elif v == 'first':
+            geo.refine_layers([geo.layerlist[1].name])
+        elif v == 'last3':
+            geo.refine_layers([geo.layerlist[-1].name], factor=3)
+    elif k == 'surfaces':
+        for i, col in enumerate(geo.columnlist):
+            col.surface = alphabet[(3, 2, 1, 4, 0, 2)[i % 6]] if v == 'mixed' else alphabet[2]
+        reindex(geo)
+    elif k == 'fit':
+        data = np.array([[float(c.centre[0]), float(c.centre[1]), alphabet[(2, 4, 1, 3)[i % 4]]]
+                         for i, c in enumerate(geo.columnlist)])
+        geo.fit_surface(data, silent=True)
+        geo.setup_block_name_index()
+        geo.setup_block_connection_name_index()
+    elif k == 'translatez':
+        geo.translate([0.0, 0.0, -2.75])
+    else:
+        raise core.HarnessError('unknown edit %r' % (edit,))
 
 
 def apply_edit(geo, edit, alphabet):
@@ -796,7 +920,7 @@ def apply_edit(geo, edit, alphabet):
     elif k == 'refine':
         geo.refine([geo.columnlist[edit[1]]])
     else:
-        raise core.HarnessError('unknown edit %r' % (edit,))
+        apply_structure_edit(geo, edit, alphabet)
 
 
 def fnum(x):
@@ -820,72 +944,169 @@ def geo_digest(geo):
             geo.atmosphere_type, geo.convention, geo.block_order, fnum(geo.permeability_angle))
 
 
-def eval_history(desc, naming, atm, order, angle, bmkind, sidx, edit, stats=None):
-    """convert -> edit -> convert again on one fresh geometry object; the second grid is judged against the
-    reference rebuilt from the edited geometry's raw data.  Returns (violations, outcome, nontrivial)."""
+def raw_equal(ra, sa, rb, sb):
+    return (ra.nodes == rb.nodes and ra.cols == rb.cols and ra.cons == rb.cons and ra.layers == rb.layers
+            and ra.convention == rb.convention and sa == sb)
+
+
+def grids_agree(g1, g2):
+    """Same blocks and connections in the same order, numbers within the comparison tolerance."""
+    (b1, c1), (b2, c2) = grid_digest(g1), grid_digest(g2)
+    if [b[0] for b in b1] != [b[0] for b in b2]:
+        return 'block names'
+    if [c[0] for c in c1] != [c[0] for c in c2]:
+        return 'connection names'
+    def near(x, y, scale):
+        return abs(x - y) <= RTOL * max(abs(x), abs(y)) + scale
+    for x, y in zip(b1, b2):
+        if (x[1] is None) != (y[1] is None) or (x[1] is not None and not near(x[1], y[1], 0.0)):
+            return 'volume of %r: %r / %r' % (x[0], x[1], y[1])
+    for x, y in zip(c1, c2):
+        if not (near(x[2], y[2], 0.0) and near(x[1][0], y[1][0], 0.0) and near(x[1][1], y[1][1], 0.0)
+                and near(x[3], y[3], 1e-9) and x[4] == y[4]):
+            return 'connection %r: %r / %r' % (x[0], x[1:], y[1:])
+    return None
+
+
+def eval_history(desc, naming, atm, order, angle, bmkind, sidx, edit, stats=None, first=True, reread=True):
+    """[convert ->] edit -> convert again on one fresh geometry object (first: whether the object was converted
+    before the edit); the grid after the edit is judged against the reference rebuilt from the edited geometry's
+    raw data.  reread: the edited geometry is also written, read back and the copy converted: that grid is judged
+    against the copy's own raw data, and when the copy's raw data equal the edited object's the two grids must
+    agree.  Returns (violations, outcome, nontrivial)."""
     import sys
     import t2grids
+    import mulgrids
     ctx = Ctx(desc, naming, 'id')
     out = []
-    tag = '|after=%s' % ('second-call' if edit[0] == 'none' else edit[0])
+    tag0 = '|after=%s%s%s' % ('second-call' if edit[0] == 'none' else edit[0], '' if first else '|not-converted-before',
+                              '|surfaces-as-constructed' if None in sidx else '')
+    tag = [tag0]
 
     def add(clause, cls, what):
-        sig = 'C04|fromgeo|%s|%s%s' % (clause, cls, tag)
+        sig = 'C04|fromgeo|%s|%s%s' % (clause, cls, tag[0])
         if not any(o[0] == sig for o in out):
             out.append((sig, what))
 
+    def convert(g, m):
+        return t2grids.t2grid().fromgeo(g) if m is None else t2grids.t2grid().fromgeo(g, m)
+
     with quiet():
         geo, st = ctx.configure(atm, order, angle, sidx, 'direct')
-        bm = make_blockmap(bmkind, list(geo.block_name_list))
-        before = geo_digest(geo)
-        bm_before = None if bm is None else dict(bm)
-        try:
-            with core.timelimit(CASE_SECONDS):
-                grid1 = t2grids.t2grid().fromgeo(geo) if bm is None else t2grids.t2grid().fromgeo(geo, bm)
-        except core.CaseTimeout:
-            raise
-        except Exception:
-            return out, 'first-conversion-raised', False       # judged by the plain cases
-        if geo_digest(geo) != before or bm != bm_before:
-            add('fromgeo-modifies-its-arguments', 'geometry' if bm == bm_before else 'blockmap',
-                'the geometry (or block mapping) differs after fromgeo')
+        grid1 = None
+        if first:
+            bm = make_blockmap(bmkind, list(geo.block_name_list))
+            before = geo_digest(geo)
+            bm_before = None if bm is None else dict(bm)
+            try:
+                with core.timelimit(CASE_SECONDS):
+                    grid1 = convert(geo, bm)
+            except core.CaseTimeout:
+                raise
+            except Exception:
+                return out, 'first-conversion-raised', False       # judged by the plain cases
+            if geo_digest(geo) != before or bm != bm_before:
+                add('fromgeo-modifies-its-arguments', 'geometry' if bm == bm_before else 'blockmap',
+                    'the geometry (or block mapping) differs after fromgeo')
         try:
             with core.timelimit(CASE_SECONDS):
                 apply_edit(geo, edit, ctx.alphabet)
             st2 = R.Static(R.extract(geo))
             if order == 'dmplex' and not all(len(c['nodes']) in (3, 4) for c in st2.raw.cols):
                 raise R.RefError('dmplex no longer applies')
+            if len(set(geo.block_name_list)) != len(geo.block_name_list):
+                raise R.RefError('names no longer unique')
+            R.expected(st2, [R.fr(c.surface) for c in geo.columnlist], atm, R.fr(geo.atmosphere_connection), angle)
         except core.CaseTimeout:
             raise
         except R.RefError:
             if stats is not None:
                 stats['history_edit_left_no_valid_geometry'] += 1
+                stats['history_edit_left_no_valid_geometry_' + edit[0]] += 1
             return out, 'edit-invalid', False                  # the edit itself is other properties' business
         except Exception:
             if stats is not None:
                 stats['history_edit_raised'] += 1
+                stats['history_edit_raised_' + edit[0]] += 1
             return out, 'edit-raised', False
         announced_b = list(geo.block_name_list)
         announced_c = list(geo.block_connection_name_list)
         bm2 = make_blockmap(bmkind, announced_b)
         try:
             with core.timelimit(CASE_SECONDS):
-                grid2 = t2grids.t2grid().fromgeo(geo) if bm2 is None else t2grids.t2grid().fromgeo(geo, bm2)
+                grid2 = convert(geo, bm2)
         except core.CaseTimeout:
-            add('timeout', ctx.nameclass, 'second fromgeo did not return')
+            add('timeout', ctx.nameclass, 'fromgeo after the edit did not return')
             return out, 'timeout', True
         except Exception as e:
             add('raises-%s@%s' % (type(e).__name__, lib_frame(sys.exc_info()[2])), 'names=%s' % ctx.nameclass,
-                'second fromgeo (after %r) raised %s: %s' % (edit, type(e).__name__, e))
+                'fromgeo (after %r%s) raised %s: %s' % (edit, ', converted once before' if first else '',
+                                                         type(e).__name__, e))
             return out, 'raised', True
-    if edit[0] == 'none' and grid_digest(grid1) != grid_digest(grid2):
+        # the written and re-read copy of the edited geometry
+        g3 = grid3 = st3 = None
+        if reread:
+            try:
+                with core.timelimit(CASE_SECONDS):
+                    path = os.path.join(core.scratch(), 'c04hist.dat')
+                    geo.write(path)
+                    g3 = mulgrids.mulgrid(path)
+                st3 = R.Static(R.extract(g3))
+                if len(set(g3.block_name_list)) != len(g3.block_name_list):
+                    raise R.RefError('names not unique')
+                R.expected(st3, [R.fr(c.surface) for c in g3.columnlist], g3.atmosphere_type,
+                           R.fr(g3.atmosphere_connection), angle)
+            except core.CaseTimeout:
+                raise
+            except Exception:
+                g3 = None                                       # writing / reading is other properties' business
+                if stats is not None:
+                    stats['history_copy_not_available'] += 1
+            if g3 is not None:
+                ann3_b, ann3_c = list(g3.block_name_list), list(g3.block_connection_name_list)
+                bm3 = make_blockmap(bmkind, ann3_b)
+                tag[0] = tag0 + '|written-and-read-back'
+                try:
+                    with core.timelimit(CASE_SECONDS):
+                        grid3 = convert(g3, bm3)
+                except core.CaseTimeout:
+                    add('timeout', ctx.nameclass, 'fromgeo of the written and re-read copy did not return')
+                except Exception as e:
+                    add('raises-%s@%s' % (type(e).__name__, lib_frame(sys.exc_info()[2])), 'names=%s' % ctx.nameclass,
+                        'fromgeo of the written and re-read copy (after %r) raised %s: %s' % (edit, type(e).__name__, e))
+                tag[0] = tag0
+    if first and edit[0] == 'none' and grid_digest(grid1) != grid_digest(grid2):
         add('second-conversion-differs', 'atm%d' % atm, 'two conversions of the same unchanged geometry differ')
     ntrunc, nontrivial = judge(geo, st2, grid2, announced_b, announced_c, bm2, atm, order, angle, False, '', add,
                                stats)
+    if grid3 is not None:
+        tag[0] = tag0 + '|written-and-read-back'
+        judge(g3, st3, grid3, ann3_b, ann3_c, bm3, g3.atmosphere_type, order, float(g3.permeability_angle), False,
+              '', add, stats)
+        tag[0] = tag0
+        same = raw_equal(st2.raw, R.surfaces_of(geo), st3.raw, R.surfaces_of(g3)) and \
+            (bm2 == bm3) and g3.atmosphere_type == atm and float(g3.permeability_angle) == float(angle)
+        if stats is not None:
+            stats['history_copies_converted'] += 1
+            stats['history_copies_with_equal_raw_data'] += 1 if same else 0
+        if same:
+            diff = grids_agree(grid2, grid3)
+            if diff is not None:
+                add('differs-from-conversion-of-written-and-read-back-copy', 'atm%d' % atm,
+                    'the edited object and its written / re-read copy hold the same raw data, their grids differ: %s'
+                    % diff)
     if stats is not None:
         stats['grids_history_' + edit[0]] += 1
+        if not first:
+            stats['grids_history_not_converted_before'] += 1
     outcome = 'atm%d|%s|%s' % (atm, 'truncated' if ntrunc else 'level', 'VIOLATION' if out else 'ok')
     return out, outcome, nontrivial
+
+
+def history_surfaces(ncol):
+    """Surface assignments a history starts from: all '= top' and a mixed one, assigned through the surface setter;
+    surfaces exactly as the constructor left them (None = never assigned); and the last with one column lowered."""
+    return ((1,) * ncol, mixed_surfaces(ncol), (None,) * ncol, ((2,) + (None,) * (ncol - 1)))
 
 
 def mixed_surfaces(ncol):
@@ -1073,15 +1294,22 @@ def case_dict(unit, atm, order, angle, bk, sidx, route='direct'):
 def run_history_unit(unit, tier, rec, ctx, stats):
     desc = tuple(unit['desc'])
     head = (desc, unit['naming'], 'history')
-    for sidx in ((1,) * ctx.ncol, mixed_surfaces(ctx.ncol)):
+    for sidx in history_surfaces(ctx.ncol):
         for atm, order, angle, bk, route in opt_product(ctx, unit['atms'], unit['orders'], unit['angles'],
                                                         unit['bmaps']):
-            for edit in edits_of(ctx):
-                viol, outcome, nontrivial = eval_history(desc, unit['naming'], atm, order, angle, bk, sidx, edit,
-                                                         stats)
-                rec.case((head, atm, order, angle, bk, sidx, edit), nontrivial=nontrivial, outcome=outcome)
-                for sig, what in viol:
-                    rec.violation(sig, what, dict(case_dict(unit, atm, order, angle, bk, sidx), edit=list(edit)))
+            for edit in (edits_of(ctx) if None not in sidx else [('none',)] + structure_edits(ctx)):
+                for first in (True, False):
+                    # (with a block mapping - thorough only - the object is always converted before the edit and no
+                    # copy is written: the mapping does not enter the geometry)
+                    if (edit[0] == 'none' or bk != 'none') and not first:
+                        continue
+                    viol, outcome, nontrivial = eval_history(desc, unit['naming'], atm, order, angle, bk, sidx, edit,
+                                                             stats, first, bk == 'none')
+                    rec.case((head, atm, order, angle, bk, sidx, edit, first), nontrivial=nontrivial,
+                             outcome=outcome)
+                    for sig, what in viol:
+                        rec.violation(sig, what, dict(case_dict(unit, atm, order, angle, bk, sidx), edit=list(edit),
+                                                      first=first))
 
 
 def run_unit(unit, tier, rec):
@@ -1152,8 +1380,10 @@ def finalize(rec, tier):
         'absolute placement': 'an exact 0.0 at the top / inside a layer / on a layer boundary / above the top layer, with 0.0 '
         'and -0.0 as surface values',
         'layer centres': 'mid-point | one layer off the mid-point | all layers off; in memory and read from a file',
-        'history on one object (convert, one edit, convert again; second grid judged)': 'every edit of the alphabet x '
-        'atmosphere type x 2 surface assignments on the rectangular and hand-made meshes',
+        'history on one object ([convert,] one edit, convert; the grid after the edit judged, and the grid of the written / '
+        're-read copy)': 'every edit of the alphabet (geometry edits; layers replaced / copied / refined; layers and columns '
+        'renamed incl. swaps and cycles; surfaces re-assigned / fitted; translate) x converted before or not x atmosphere type x '
+        '2 assigned + 2 as-constructed surface states on the rectangular and hand-made meshes',
         'route to the final atmosphere type / block order / convention': 'direct | assigned from each other type | '
         'written with each type, read back, assigned | other block order then assigned | convention 0 then 3 assigned; '
         'crossed with atmosphere type x surfaces k <= 1 on the rectangular and hand-made meshes (base surface on g7)'}}
@@ -1164,7 +1394,8 @@ def replay(case):
     if case.get('edit') is not None:
         sidx = case['surfaces']
         viol, outcome, nontrivial = eval_history(tuple(case['desc']), case['naming'], case['atm'], case['order'],
-                                                 case['angle'], case['blockmap'], tuple(sidx), tuple(case['edit']))
+                                                 case['angle'], case['blockmap'], tuple(sidx), tuple(case['edit']),
+                                                 None, case.get('first', True))
         return viol
     ctx = Ctx(tuple(case['desc']), case['naming'], case['transform'])
     if ctx.geo is None:
@@ -1191,7 +1422,11 @@ BOUNDS = {
                                'meshes) or in all layers, set in memory and written / read back, k <= 1, 3 atmosphere types',
               'histories': 'nz <= 3 shapes and mix / tq / mix refined, convention 0: every edit of the alphabet (each quad x node '
                            'split, each column centre, each node, rotate, translate, each column x 2 surfaces, snap, each column '
-                           'refined, none) x 3 atmosphere types x 2 surface assignments',
+                           'refined, none; 4 re-layerings with add_layers, 2 copy_layers_from, 4 rename_layer, 3 rename_column, '
+                           '3 refine_layers, 2 assignments of every surface, fit_surface, translate in z) x {converted before '
+                           'the edit, not} x 3 atmosphere types x 2 surface assignments; the 20 layer / name / surface edits and '
+                           'none also from surfaces as constructed (all; one column lowered); every edited geometry also '
+                           'written, read back and converted',
               'irregular': 'mix (6 columns), tq (4 columns), mix refined (12 columns): k <= 1 under every option, '
                            'k <= 2 / 6^4 / connected pairs at one setting; g7: base under the options, k <= 1 at atmosphere type 1; '
                            'g7 refined (all / part): base',
@@ -1206,8 +1441,10 @@ BOUNDS = {
                                'k <= 2 and every uniform assignment',
                  'layer centres': 'every shape and hand-made mesh: each single layer and all layers off the mid-point, in memory, '
                                   'written / read back, and with the atmosphere type assigned afterwards; k <= 1',
-                 'histories': 'every shape and hand-made mesh, conventions 0 and 3: every edit x 3 atmosphere types x {None, dmplex} x '
-                              '{no map, full map} x 2 surface assignments, angle 30',
+                 'histories': 'every shape and hand-made mesh, conventions 0 and 3: every edit (as quick) x {converted before, not; with a block map: before only, no copy} x '
+                              '3 atmosphere types x {None, dmplex} x {no map, full map} x 2 surface assignments (+ 2 as-constructed '
+                              'starts for the layer / name / surface edits), angle 30; every edited geometry also written, read '
+                              'back and converted',
                  'irregular': 'mix k <= 2, tq 6^4, mix refined connected pairs, under every option; g7: base under every option and '
                               'transform, connected pairs (k <= 2) per atmosphere type; g7 partly refined k <= 1; g7 refined base',
                  'files': 'g1..g7 x {as read, rotated 30, shifted, tilted} x 3 atmosphere types x {no map, full map}'}}
